@@ -27,6 +27,8 @@ func parseOpts(s string) SysOpts {
 			o.HostBucket = true
 		case f == "boltsync":
 			o.BoltSync = true
+		case f == "skew":
+			o.Skew = true
 		case strings.HasPrefix(f, "metalimit="):
 			o.MetaLimit, _ = strconv.Atoi(f[len("metalimit="):])
 		case strings.HasPrefix(f, "bases="):
